@@ -26,14 +26,28 @@ def build(u):
         u.raw(open(os.path.join(COMMON, f)).read())
     u.raw_file("deps.rs")
     u.raw_file("spec.rs")
+    err = u.src("proxy_agent/src/common/error.rs")
     with u.mod("common"):
+        with u.mod("error"):
+            u.take_ext(err, ["Error", "HyperErrorType", "WireServerErrorType", "KeyErrorType", "AclErrorType", "BpfErrorType"], "vx_ext_error", uses="use http::{uri::InvalidUri, StatusCode};")
+        with u.mod("result", uses="use super::error::Error;"):
+            u.raw("pub type Result<T> = core::result::Result<T, Error>;")
         with u.mod("constants"):
             for n in ("WIRE_SERVER_IP", "WIRE_SERVER_PORT", "GA_PLUGIN_IP", "GA_PLUGIN_PORT", "IMDS_IP", "IMDS_PORT", "PROXY_AGENT_IP", "PROXY_AGENT_PORT"):
                 u.take(consts, n, "const")
     with u.mod("key_keeper"):
         with u.mod("key", uses="use std::collections::HashMap;"):
+            u.take(key, "Key", "struct", extra_attrs="#[verifier::external_body]")
             u.take(key, "Privilege", "struct")
             u.take(key, "Identity", "struct")
+    with u.mod("shared_state"):
+        with u.mod("key_keeper_wrapper", uses="use crate::common::error::Error;\nuse crate::common::result::Result;\nuse crate::proxy::authorization_rules::ComputedAuthorizationItem;\nuse crate::key_keeper::key::Key;\nuse std::sync::Arc;\nuse tokio::sync::{mpsc, oneshot, Notify};"):
+            u.take_ext(kkw, ["KeyKeeperAction", "KeyKeeperSharedState"], "vx_ext_kkw", uses="use crate::proxy::authorization_rules::ComputedAuthorizationItem;\nuse crate::key_keeper::key::Key;\nuse std::sync::Arc;\nuse tokio::sync::{mpsc, oneshot, Notify};")
+            with u.impl_(kkw, "KeyKeeperSharedState"):
+                for (f, ep) in (("get_wireserver_rules", "WireServer"), ("get_hostga_rules", "GAPlugin"), ("get_imds_rules", "Imds")):
+                    u.take_fn(kkw, "KeyKeeperSharedState::" + f, external_body=True, contract="""
+        ensures r == rules_reply(*self, Endpoint::%s),
+""" % ep)
     with u.mod("proxy", uses="use std::{ffi::OsString, path::PathBuf};"):
         u.take(px, "Claims", "struct", keep_derive=("Clone",))
         with u.mod("proxy_connection", uses="use log::Level as LoggerLevel;"):
@@ -47,7 +61,7 @@ def build(u):
                 u.take_fn(ar, "ComputedAuthorizationItem::is_allowed", external_body=True, contract="""
         ensures r == is_allowed_spec(*self, request_url, claims),
 """)
-        with u.mod("proxy_authorizer", uses="use super::authorization_rules::{AuthorizationMode, ComputedAuthorizationItem};\nuse super::proxy_connection::ConnectionLogger;\nuse crate::{common::constants, proxy::Claims};\nuse log::Level as LoggerLevel;"):
+        with u.mod("proxy_authorizer", uses="use super::authorization_rules::{AuthorizationMode, ComputedAuthorizationItem};\nuse super::proxy_connection::ConnectionLogger;\nuse crate::{common::constants, common::result::Result, proxy::Claims};\nuse crate::shared_state::key_keeper_wrapper::KeyKeeperSharedState;\nuse log::Level as LoggerLevel;"):
             u.take(pa, "AuthorizeResult", "enum", structural=True)
             with u.trait_(pa, "Authorizer", extra="    spec fn spec_auth(&self, url: hyper::Uri, rules: Option<ComputedAuthorizationItem>) -> AuthorizeResult;\n"):
                 u.take_fn(pa, "Authorizer::authorize", contract="""
@@ -75,6 +89,30 @@ def build(u):
         ensures forall|url: hyper::Uri, rules: Option<ComputedAuthorizationItem>|
             #[trigger] r.spec_auth(url, rules) == auth_table(endpoint_of(ip@, port), claims.runAsElevated, rule_view(rules, url, claims)),  // @C03.get_authorizer.endpoint_selects_table_row
 """)
+            u.take_fn(pa, "get_access_control_rules", pre_body="broadcast use axiom_str_ext;\nproof { lits_endpoints(); }", contract="""
+        ensures r == (match endpoint_of(ip@, port) {
+            Endpoint::WireServer => rules_reply(key_keeper_shared_state, Endpoint::WireServer),
+            Endpoint::GAPlugin => rules_reply(key_keeper_shared_state, Endpoint::GAPlugin),
+            Endpoint::Imds => rules_reply(key_keeper_shared_state, Endpoint::Imds),
+            _ => Ok(None),
+        }),  // @C01.get_access_control_rules.policy_of_original_destination
+""")
             u.take_fn(pa, "authorize", contract="""
         ensures r == auth_table(endpoint_of(ip@, port), claims.runAsElevated, rule_view(access_control_rules, request_uri, claims)),  // @C03+C11.authorize.refines_table
 """)
+
+    # cross-site obligation of C03's second sentence: the listener port given to the redirector (the port the kernel
+    # hook diverts to) and to the proxy server is the PROXY_AGENT_PORT that get_authorizer refuses (3080).
+    # E5c: the first-argument expressions of the two constructor calls are lifted verbatim.
+    sv = u.src("proxy_agent/src/service.rs")
+    it = sv.item("start_service", "fn")
+    from vxlib import Undecided
+    with u.mod("service", uses="use crate::common::constants;"):
+        for callee, nm in (("Redirector::new", "redirector"), ("ProxyServer::new", "proxy_server")):
+            cs = [c for c in it["calls"] if c["kind"] == "path" and c["callee"].replace(" ", "") == callee]
+            if len(cs) != 1 or not cs[0]["args"]:
+                raise Undecided("start_service: expected exactly one call of %s, found %d" % (callee, len(cs)))
+            a = cs[0]["args"][0]
+            u.slice_fn(sv, "start_service", "vx_slice_%s_port" % nm, a[0], a[1], "", ret_type="u16", contract="""
+        ensures r == 3080 && r == constants::PROXY_AGENT_PORT,  // @C03.start_service.%s_listens_on_refused_port
+""" % nm, what="(first argument of %s)" % callee)
